@@ -512,6 +512,7 @@ def shard_run(arg):
 
 def run(tier, seed, work):
     res = vp.Result("C05", tier, seed, "exploration")
+    res.after_error_routes = ['builds_that_handled_a_failed_layer_write_before_returning']      # routes added in round 12 (a handled failure followed by ordinary work): must have observed something
     r = vp.rng(seed, "c05-gen")
     cfgs = []
     for f in reaching_fronts():
@@ -562,6 +563,7 @@ def run(tier, seed, work):
     res.assumptions = ["exact non-zero exit codes are not asserted, only the classes the statement names (0, 100, neither, non-zero)",
                        "for failures before dispatch (API mismatch, wrong name, wrong argc, missing CNB_BUILDPACK_DIR) only 'never reaches detect/build, never exits 0, on_error at most once' is required",
                        "an unreadable platform is simulated by <platform>/env being a regular file (the sandbox runs as root)"]
+    res.required = list(getattr(res, "required", [])) + res.after_error_routes
     return res
 
 
